@@ -109,7 +109,11 @@ func mkFlags(a map[string]string) string {
 	if o != "0" && o != "1" {
 		o = "2"
 	}
-	return o + bit(a["opening"]) + bit(a["invpaid"]) + bit(a["spentback"]) + bit(a["claimtx"]) + bit(a["csvwatch"]) + bit(a["resend"]) + bit(a["suspicious"])
+	agr := "0"
+	if a["role"] == "1/1" { // swap-in initiator: the only role whose table accepts swap_in_agreement
+		agr = bit(a["inagree"])
+	}
+	return o + bit(a["opening"]) + bit(a["invpaid"]) + bit(a["spentback"]) + bit(a["claimtx"]) + bit(a["csvwatch"]) + bit(a["resend"]) + bit(a["suspicious"]) + agr
 }
 
 func init() {
